@@ -452,9 +452,9 @@ func hostPlans(tier string) []plan {
 func wirePlans(tier string) []plan {
 	full, small := alphabet(), smallAlphabet()
 	if tier == "thorough" {
-		return []plan{{full, 1}, {full, 2}, {small, 3}}
+		return []plan{{full, 1}, {full, 2}, {full, 3}}
 	}
-	return []plan{{full, 1}, {full, 2}}
+	return []plan{{full, 1}, {full, 2}, {small, 3}}
 }
 
 func silence() {
@@ -473,7 +473,7 @@ func run(c *lib.Ctx) {
 				c.EngineError(fmt.Sprintf("harness panic: %v", r))
 			}
 		}()
-		idx := 0
+		idx, mine := 0, 0
 		for _, p := range hostPlans(c.Tier) {
 			if os.Getenv("C06_PART") == "wire" { // development switch
 				break
@@ -484,12 +484,13 @@ func run(c *lib.Ctx) {
 				if !c.Mine(idx) {
 					return true
 				}
-				if idx%512 == 0 && c.Expired() {
+				mine++
+				if mine%64 == 0 && c.Expired() {
 					complete = false
 					return false
 				}
 				e.checkTable(base)
-				if idx%20011 == 0 {
+				if mine%1501 == 0 {
 					c.Sample(map[string]any{"part": "host", "table": tableStr(base)})
 				}
 				return true
